@@ -38,6 +38,19 @@ func initiatePodExposure() PodExposureInfo {
 	}
 }
 
+// NewFakePod returns a fake pod (a pod that does not come from the input resources, e.g. the ingress-controller pod)
+// with the given name and namespace; its exposure data is initiated like a real pod's, since a policy of its namespace
+// may select it
+func NewFakePod(name, namespace string) *Pod {
+	return &Pod{
+		Name:                name,
+		Namespace:           namespace,
+		FakePod:             true,
+		IngressExposureData: initiatePodExposure(),
+		EgressExposureData:  initiatePodExposure(),
+	}
+}
+
 // Pod encapsulates k8s Pod fields that are relevant for evaluating network policies
 type Pod struct {
 	Name      string
